@@ -82,6 +82,7 @@ class Scheduler:
         self.aborting = False
         self.local = threading.local()
         self.max_steps = 100000
+        self.impatient = False  # timed operations may time out whenever they cannot complete at once (slow other threads)
         self.step_timeout = 10.0  # wall-clock seconds one step may take (thread-local code between two visible operations)
 
     # ---- called from simulated code --------------------------------------------------------------------------------
@@ -245,8 +246,11 @@ class SimQueue:
     def put(self, item, block=True, timeout=None):
         if block and timeout is not None:
             # a timed put: it times out only when real time passes with the queue still full, i.e. when nobody else can
-            # move (a retry after a time-out that changes nothing is not a step: the thread just stays parked)
-            self.sched.visible(f"{self.name}.put", lambda: not self._full() or self.sched.nobody_else_enabled())
+            # move (a retry after a time-out that changes nothing is not a step: the thread just stays parked).
+            # `impatient` scheduler (oracle-only runs): the others may be arbitrarily slow, so the time-out may strike at
+            # any moment the operation cannot be completed at once; the thread then yields to the others.
+            self.sched.visible(f"{self.name}.put", lambda: not self._full() or self.sched.impatient
+                               or self.sched.nobody_else_enabled())
             if self._full():
                 self.sched.record(f"{self.name}.put", "Full")
                 self.sched.timed_out()
@@ -267,6 +271,17 @@ class SimQueue:
             self.sched.record(f"{self.name}.put_nowait", self._show(item))
 
     def get(self, block=True, timeout=None):
+        if block and timeout is not None:
+            # a timed get: same rule as the timed put
+            self.sched.visible(f"{self.name}.get", lambda: len(self.items) > 0 or self.sched.impatient
+                               or self.sched.nobody_else_enabled())
+            if not self.items:
+                self.sched.record(f"{self.name}.get", "Empty")
+                self.sched.timed_out()
+                raise _queue.Empty()
+            item = self.items.pop(0)
+            self.sched.record(f"{self.name}.get", self._show(item))
+            return item
         if block:
             self.sched.visible(f"{self.name}.get", lambda: len(self.items) > 0)
             item = self.items.pop(0)
